@@ -1,6 +1,7 @@
 import SqlgrepModel.Lemmas.ParseClauses
 import SqlgrepModel.Lemmas.ParsePrefixClauses
 import SqlgrepModel.Lemmas.ParseSemicolon
+import SqlgrepModel.Lemmas.ParseClauseOrder
 import SqlgrepModel.Lemmas.LowerNames
 /-
 C20 — parser-level section (owner: builder `pstmt`; the lexical half — letter case of keywords, whitespace,
@@ -122,6 +123,26 @@ showing why the value can only be the same *up to locations* — the column node
 that follows it -/
 theorem where_ident_is_a_clause (T : PrecTables) (hT : InertBoundary T) (l1 l2 : Loc) (x : List Char) :
     IsClause T 4 [⟨l1, .kw .where⟩, ⟨l2, .ident x⟩] (.filter (.column ⟨0, 0⟩ x)) := isClause_where_ident T hT l1 l2 x
+
+/-- **Clause order does not matter, starting from "the first order parses"** — `clause_order_invariance_from_run`:
+let `segs1` be segments of the shape "clause keyword, then tokens none of which is a clause keyword, `;` or `End`"
+(`SegShape`: what one gets by cutting the token vector in front of every clause keyword) and suppose the clause loop
+reads `segs1` followed by `End` without error. Then it stopped at that `End`, and for every rearrangement `segs2` of
+the segments (the same token sequences, at any locations) followed by `End` the loop succeeds as well, stops at `End`,
+and returns the same slots up to locations. No hypothesis about the individual clauses is left: that every segment is
+a clause, with which value, and that the kinds are pairwise different is read off the successful run. -/
+theorem clause_order_invariance_from_run (T : PrecTables) (hT : InertBoundary T) (fuel : Nat)
+    (segs1 segs2 : List (List PTok)) (final1 final2 : PSt) (h1 : final1.cur.tok = .eof) (h2 : final2.cur.tok = .eof)
+    (hshape : ∀ seg ∈ segs1, SegShape seg)
+    (hperm : (segs1.map (fun seg => seg.map (·.tok))).Perm (segs2.map (fun seg => seg.map (·.tok))))
+    (c1 : Clauses) (sF : PSt) (hrun : clauseLoop T fuel {} (PSt.prependAll segs1 final1) = .ok c1 sF) :
+    sF = final1 ∧
+      ∃ c2, clauseLoop T (fuel + segs1.length) {} (PSt.prependAll segs2 final2) = .ok c2 final2 ∧ c1.Same c2 :=
+  clauseLoop_perm_of_run hT fuel segs1 segs2 final1 final2 h1 h2 hshape hperm c1 sF hrun
+
+/-- the shape hypothesis on a segment with an expression: `WHERE a = 1` -/
+example (w : Loc) (l : Fin 3 → Loc) : SegShape (⟨w, .kw .where⟩ :: exampleBody l) :=
+  ⟨_, _, rfl, by simp [ClauseKw], exampleBody_nb l⟩
 
 /-! ### trailing semicolon -/
 
